@@ -67,13 +67,11 @@ Definition to_gps_with (cond : Z -> Z -> Z -> bool) (tbl : list (Z * Z)) (t : Z)
 Definition from_gps_with (cond : Z -> Z -> Z -> bool) (tbl : list (Z * Z)) (d : Z) : Z :=
   fold_left (fun t e => if cond (fst e) (snd e) t then t - snd e else t) tbl (gps_epoch_ns + d).
 
-(* the code of the working tree *)
-Definition to_gps (t : Z) : Z := to_gps_with cond_orig (table_ns leap_table) t.
-Definition from_gps (d : Z) : Z := from_gps_with cond_orig (table_ns leap_table) d.
-
-(* the repaired code *)
+(* the code of the working tree (repaired, commit "fix: gps leap-second offset applied one second early") *)
 Definition to_gps_fixed (t : Z) : Z := to_gps_with cond_to_fixed (table_ns leap_table) t.
 Definition from_gps_fixed (d : Z) : Z := from_gps_with cond_from_fixed (table_ns leap_table) d.
+Definition to_gps : Z -> Z := to_gps_fixed.
+Definition from_gps : Z -> Z := from_gps_fixed.
 
 (* the code before the repair (both loops use ls.Time.Before(t)) *)
 Definition to_gps_orig (t : Z) : Z := to_gps_with cond_orig (table_ns leap_table) t.
